@@ -3,6 +3,7 @@
    SendResOk / SendResErr only if it sends `((ok, value), self._user_state)`, so every report
    carries the state; the parent assigns it when it decodes that message after the death. *)
 From PW Require Import Child.Sem Gen.Skel Child.Runs Child.Proofs.
+From PW Require Equiv.Transport Equiv.TransportProofs Gen.Transport.
 
 (* every ending that lets the child report - return, its own exception, a graceful terminate
    landing inside the running target - synchronises the state, for thread, process and remote kinds,
@@ -23,5 +24,25 @@ Proof.
   apply in_prod; [apply in_prod; [apply in_prod; [apply in_prod; [apply in_kinds3|apply in_bools]|apply in_targets]|apply in_seq; unfold BOUND_R in *; lia]|apply in_actions; exact Ha].
 Qed.
 
+(* "... and only then": the final message of a process worker carries the outcome AND the user state; whatever the parent does -
+   any number of timed waits (which may already have RECEIVED the message), accessor calls - and however often the child sends,
+   nothing of it is taken over while the child process is alive.  On the reception shape regenerated from ProcessWorker.wait and
+   ProcessWorker._get_result (Gen/Transport.v). *)
+Theorem C16_nothing_is_taken_over_while_the_child_lives :
+  forall (msg : Type) (es : list (Equiv.Transport.ev msg)),
+    Equiv.Transport.exited _ (Equiv.Transport.run msg Gen.Transport.gen_tflags (Equiv.Transport.init msg) es) = false ->
+    Equiv.Transport.result _ (Equiv.Transport.run msg Gen.Transport.gen_tflags (Equiv.Transport.init msg) es) = None.
+Proof.
+  intros msg es. apply (Equiv.TransportProofs.alive_no_result msg Gen.Transport.gen_tflags eq_refl). intros _. reflexivity.
+Qed.
+
+Theorem C16_refuted_if_the_accessors_use_a_message_received_early :
+  let s := Equiv.Transport.run nat (Equiv.TransportFlags.Build_tflags true true true true true false) (Equiv.Transport.init nat)
+             [Equiv.Transport.CSend 7; Equiv.Transport.PWait; Equiv.Transport.PGet] in
+  Equiv.Transport.exited _ s = false /\ Equiv.Transport.result _ s = Some (Equiv.Transport.Report 7).
+Proof. exact Equiv.TransportProofs.taken_over_alive_without_guard. Qed.
+
 Print Assumptions C16_reporting_endings_synchronise.
 Print Assumptions C16_kill_synchronises_only_complete_reports.
+Print Assumptions C16_nothing_is_taken_over_while_the_child_lives.
+Print Assumptions C16_refuted_if_the_accessors_use_a_message_received_early.
